@@ -1,7 +1,9 @@
 (** Model of MannWhitneyUTest (internal/stats/utest.go) after the four repairs
     that keep the existing tests unedited:
       hooks/fix_c11_udist_k2.diff            floor in the K==2 base case (Model/UDistImpl.v)
-      hooks/fix_c11_utest_greater.diff       Greater:  1 - CDF(U1 - 0.5)
+      hooks/fix_c11_utest_greater.diff       Greater:  1 - CDF(U1 - 0.5), superseded by
+      hooks/fix_c11_utest_greater_mirror.diff Greater:  CDF of the mirrored distribution
+                                             (T reversed) at U2: no cancellation, never negative
       hooks/fix_c11_utest_twosided_cap.diff  Differs:  min(1, 2*CDF(min(U1,U2)))
       hooks/fix_c11_utest_samples_equal_large.diff
                                              len(T) == 1 => ErrSamplesEqual BEFORE the
@@ -41,7 +43,11 @@ Definition exact_p (s : ustat) (a : alt) : pexact :=
       if us_twoU1 s =? twoU2 s then POne
       else PTwiceCapped (c (Z.min (us_twoU1 s) (twoU2 s)))
   | Less => PCdf (c (us_twoU1 s))
-  | Greater => POneMinusCdf (c (us_twoU1 s - 1))      (* U1 - 0.5 *)
+  | Greater =>
+      (* hooks/fix_c11_utest_greater_mirror.diff: the lower tail at U2 of the mirrored
+         distribution (tie vector reversed), a sum of positive terms; the earlier
+         1 - CDF(U1 - 0.5) cancelled and could be negative *)
+      PCdf (cdf (us_n1 s) (us_n2 s) (rev (us_T s)) (2 * twoU2 s))
   end.
 
 (** the pre-repair exact path (for the refuted statements) *)
